@@ -548,18 +548,21 @@ def corr_cf(ctx, workdir, cleanup, stats, tab):
             refused += obs["func"] is None
             items.append((c, opts, obs))
     bad_total, in_domain, plain, compared = 0, 0, 0, 0
+    rt = Counter()
     forms = Counter()
     for lo in range(0, len(items), 50):
         shard = items[lo:lo + 50]
         ok, vals, raw = ctx.coq_eval(C.REQUIRES, C.coq_body(shard), name="cf")
-        if not ok or len(vals) < 3:
+        if not ok or len(vals) < 5:
             ctx.tie_broken("correspondence", "cf:model-evaluation", raw[-800:])
             bad_total += 1
             continue
         bad = set(common.parse_nat_list(vals[0]))
         hyp = re.findall(r"true|false", vals[1])
         some = re.findall(r"true|false", vals[2])
-        if len(hyp) != len(shard) or len(some) != len(shard):
+        hyp_nobrk = re.findall(r"true|false", vals[3])
+        rts = re.findall(r"\((true|false), (true|false), (true|false)\)", vals[4])
+        if len(hyp) != len(shard) or len(some) != len(shard) or len(hyp_nobrk) != len(shard) or len(rts) != len(shard):
             ctx.tie_broken("correspondence", "cf:model-evaluation", f"{len(hyp)}/{len(some)} verdicts for {len(shard)} cases")
             bad_total += 1
             continue
@@ -569,6 +572,17 @@ def corr_cf(ctx, workdir, cleanup, stats, tab):
             is_plain = not (opts["use_operators"] or opts["inline_const"] or opts["skip_initializers"])
             plain += is_plain
             in_domain += hyp[k] == "true"
+            if is_plain:
+                # the hypotheses of C13_roundtrip_sound_partial: our class, C01's class (pre_ok, with / without "every value is a
+                # condition"), the converter model accepts the exported function
+                rt["plain"] += 1
+                rt["export_class"] += hyp[k] == "true"
+                rt["export_class_without_break_form"] += hyp_nobrk[k] == "true"
+                rt["converter_class"] += rts[k][1] == "true"
+                rt["converter_class_without_while_break"] += rts[k][0] == "true"
+                rt["converter_model_accepts"] += rts[k][2] == "true"
+                rt["all_hypotheses"] += hyp[k] == "true" and rts[k][1] == "true" and rts[k][2] == "true"
+                rt["all_hypotheses_without_truth_totality"] += hyp_nobrk[k] == "true" and rts[k][0] == "true" and rts[k][2] == "true"
             shape = (info["ifs"] > 0, info["while"] > 0, info["pure_for"] > 0, info["for_with_cond"] > 0, info["depth"])
             forms[shape] += 1
             ctx.case(("cf", c["kind"], c["profile"], opt_tag(opts), shape, hyp[k], some[k], obs["func"] is None, min(obs["statements"], 16)))
@@ -587,6 +601,12 @@ def corr_cf(ctx, workdir, cleanup, stats, tab):
                    f"{bad_total} disagreements")
     ctx.obligation("nested tie health: at least a quarter of the programs compared with the structure-changing options off satisfy every "
                    "hypothesis of C13_export_nested_sound_partial", in_domain * 4 >= plain and plain > 0, f"{in_domain} of {plain}")
+    print(f"[C13] round-trip theorem (C13_roundtrip_sound_partial): {rt['all_hypotheses']} of {rt['plain']} exported nested programs (options off) "
+          f"satisfy every hypothesis ({rt['all_hypotheses_without_truth_totality']} without the truth-totality premise); "
+          f"export class {rt['export_class']}, converter class {rt['converter_class']}, converter model accepts {rt['converter_model_accepts']}")
+    ctx.obligation("round-trip tie health: some exported nested programs satisfy every hypothesis of C13_roundtrip_sound_partial",
+                   rt["all_hypotheses"] > 0, json.dumps(dict(rt)))
+    ctx.cover(cf_roundtrip_hypotheses=dict(rt))
     ctx.cover(cf_programs_compared=compared, cf_in_theorem_domain=in_domain, cf_plain_option_programs=plain, cf_disagreements=bad_total,
               cf_exporter_refused_and_model_refused=refused, cf_skipped=dict(skipped), cf_generated_invalid=rejected,
               cf_shapes={str(k): v for k, v in sorted(forms.items(), key=lambda kv: -kv[1])[:12]})
@@ -831,6 +851,11 @@ def run_cases(ctx, cases, workdir, cleanup, stats):
                     ctx.sample({"case": c["id"], "options": opt_tag(opts), "outcome": "round trip equal on %d feeds" % len(c["feeds"]),
                                 "nodes": info["nodes"], "depth": info["depth"], "collision_free": fr})
                 continue
+            if out["stage"] == "export" and out["exc"] == "RuntimeError" and "sequential assignments" in out["msg"] and info["swap"]:
+                # a descriptive refusal of a model outside the exportable class (C13_12): what the property asks for
+                stats["refused_descriptively"] += 1
+                ctx.case(shape + (opt_tag(opts), "refused:sequential-assignment-hazard"))
+                continue
             key = classify(c, info, not fr, opts, out, cleanup)
             stats["failures"][key] = stats["failures"].get(key, 0) + 1
             ctx.case(shape + (opt_tag(opts), key))
@@ -1044,10 +1069,10 @@ def run(ctx):
               round_trips=stats["runs"], round_trips_equal=stats["ok"], by_option=stats["by_option"], equal_by_option=stats["ok_by_option"],
               failures_by_class=stats["failures"], models_with_name_collisions=stats["models_with_collisions"],
               output_names_changed=stats["output_names_changed"], make_model_protocol_runs=stats["make_model_protocol"],
-              generated_invalid_skipped=stats["generated_invalid_skipped"], unrunnable_originals=stats["unrunnable_originals"],
+              generated_invalid_skipped=stats["generated_invalid_skipped"], refused_descriptively=stats["refused_descriptively"], unrunnable_originals=stats["unrunnable_originals"],
               option_tuples="all 16" if not quick else "default + 3 random per case",
               not_modelled="attribute pretty-printing, _handle_attrname_conflict (observed through execution only); use_operators / inline_const / "
                            "skip_initializers and the counted Loop forms are modelled (Export/EmitCF.v) and compared, not covered by a soundness theorem; "
                            "If nodes whose outputs are all unused are not generated (the converter refuses them)")
     if ctx.tier == "thorough":
-        ctx.coqchk(["Props.C13", "Props.C13_unssa", "Props.C13_constrepr", "Props.C13_emit", "Props.C13_nested", "Props.C13_unique", "Props.C13_options"])
+        ctx.coqchk(["Props.C13", "Props.C13_unssa", "Props.C13_constrepr", "Props.C13_emit", "Props.C13_nested", "Props.C13_unique", "Props.C13_options", "Props.C13_roundtrip", "Props.C13_findings"])
